@@ -52,6 +52,7 @@ def run(ctx):
     rule_key(ctx, F)
     rule_cls(ctx, F)
     rule_cfg(ctx, F)
+    rule_replay(ctx, F)
 
 
 def rule_exp(ctx, F):
@@ -508,6 +509,47 @@ def rule_cls(ctx, F):
                "classify_no_error calls a NOERROR response an answer on a path where the record's type was not found equal to "
                "the queried type (and its class to the queried class): a NODATA reached through a CNAME counts as a positive "
                "answer and escapes max_nodata_validity", b.where(bi))
+
+
+def rule_replay(ctx, F):
+    """What comes out of the cache is what the upstream returned.  Value::get_response rebuilds the stored message
+    with decremented TTLs; the rebuild re-parses every record's data and can fail on a message that was accepted (and
+    handed to the first caller) as it was.  That failure is not a response the upstream gave: get_response has an
+    exit that answers `None` (entry unusable, ask the upstream again) exactly when a stored *Ok* response could not be
+    rebuilt -- it never serves the rebuild error in place of the message."""
+    R = "C20.replay"
+    ctx.floor(R, 1)
+    bs = [b for p, b in F.bodies.items() if re.match(r"^net::client::cache::Value::get_response(::<.*>)?$", p)]
+    if not ctx.anchor(R, "cache::Value::get_response", len(bs) == 1):
+        return
+    b = bs[0]
+    dec = b.calls_matching(r"cache::decrement_ttl(::<.*>)?$")
+    if not ctx.anchor(R, "decrement_ttl call in get_response", len(dec) == 1, b.where()):
+        return
+    hatch = False
+    for rb, si, kind, term in return_assignments(b):
+        if kind != "None" or not b.dominates(dec[0][0], rb):
+            continue
+        rebuilt_failed = stored_ok = False
+        for tm, v in bool_facts(b, rb, F):
+            sh = show(tm)
+            if "decrement_ttl(" in sh and (("is_err(" in sh and v is True) or ("is_ok(" in sh and v is False)):
+                rebuilt_failed = True
+            elif "decrement_ttl(" not in sh and ".response" in sh and (("is_ok(" in sh and v is True) or ("is_err(" in sh and v is False)):
+                stored_ok = True
+        for tm, o in outcome_facts(b, rb, F):
+            sh = show(deep_strip(tm))
+            if isinstance(o, tuple) and o[0] == "variant":
+                if "decrement_ttl(" in sh and o[1] == "Err":
+                    rebuilt_failed = True
+                elif "decrement_ttl(" not in sh and ".response" in sh and o[1] == "Ok":
+                    stored_ok = True
+        if rebuilt_failed and stored_ok:
+            hatch = True
+    ctx.ob(R, b, "a stored response that cannot be rebuilt is not replayed as an error", hatch,
+           "get_response hands out whatever decrement_ttl returns: a message the cache accepted (and gave to the first caller) "
+           "but cannot re-compose -- e.g. one with an AAAA record of 3 octets in the additional section -- is answered from the "
+           "cache as Err(MessageParseError) for its whole validity, an answer the upstream never gave", b.where(dec[0][0]))
 
 
 def rule_cfg(ctx, F):
